@@ -1,4 +1,4 @@
-package p03
+package cfz
 
 import (
 	"strconv"
@@ -10,13 +10,13 @@ import (
 	"verif/harness/m"
 )
 
-// confuse builds a program whose statements are syntactically fine but mostly ill-typed:
+// Program builds a program whose statements are syntactically fine but mostly ill-typed:
 // a generated well-typed program, followed by typed contexts (typed declaration plus
 // assignment, parameter, variadic parameter, return value, element and field store,
 // operator operand, index, range, condition, type assertion) that are filled with
 // generated expressions of an unrelated type, including element/field selections of
 // literals and empty literals. Parsing must answer with located diagnostics, never crash.
-func confuse(t *rapid.T) (string, []string) {
+func Program(t *rapid.T, related bool) (string, []string) {
 	g := gen.New(t, gen.Cfg{ExprDepth: 2, BlockDepth: 1, MaxStmts: 3, Any: true, Maps: true, Funcs: rapid.Bool().Draw(t, "funcs"), Loops: true, Builtins: true})
 	p := g.Program()
 	lay := eng.RapidLayout{T: t, Calm: true}
@@ -51,8 +51,15 @@ func confuse(t *rapid.T) (string, []string) {
 	for i := 0; i < n; i++ {
 		T := g.Type(rapid.IntRange(0, 3).Draw(t, "Tdepth"))
 		e, S := expr("e" + strconv.Itoa(i))
+		if related && rapid.IntRange(0, 3).Draw(t, "related") > 0 {
+			// a required type that is the value's own type or its any-based variant: more of these are accepted and run
+			T = S
+			if rapid.Bool().Draw(t, "anyvariant") {
+				T = anyVariant(S, rapid.IntRange(0, 3).Draw(t, "anyat"))
+			}
+		}
 		v := "q" + strconv.Itoa(i)
-		k := rapid.SampledFrom([]string{"assign", "param", "variadic", "return", "element", "field", "operand", "index", "range", "condition", "assertion", "decl-then-assign"}).Draw(t, "context")
+		k := rapid.SampledFrom([]string{"assign", "param", "variadic", "return", "element", "field", "operand", "index", "range", "condition", "assertion", "decl-then-assign", "store", "store"}).Draw(t, "context")
 		ops = append(ops, "confuse:"+k)
 		switch k {
 		case "assign":
@@ -80,9 +87,60 @@ func confuse(t *rapid.T) (string, []string) {
 			sb.WriteString("if " + e + "\n    print 1\nend\n")
 		case "assertion":
 			sb.WriteString(v + ":" + T.String() + "\n" + v + "a:any\n" + v + "a = " + e + "\n" + v + " = " + v + "a.(" + S.String() + ")\nprint " + v + " " + v + "a\n" + v + " = (" + e + ").(" + T.String() + ")\n")
+		case "store":
+			// a store through a chain of selectors into a literal-initialised variable; the chain
+			// may end inside a string (which cannot be stored into) or go one step too deep
+			C := g.Type(rapid.IntRange(1, 3).Draw(t, "Cdepth"))
+			for !C.Composite() || C.Sub.K == m.Any {
+				C = m.ArrOf(m.ArrOf(m.TStr))
+			}
+			init := g.Literal(C, 2)
+			target, cur := v, C
+			steps := rapid.IntRange(1, 4).Draw(t, "chainlen")
+			for j := 0; j < steps && cur != nil; j++ {
+				switch cur.K {
+				case m.Arr:
+					target += "[" + rapid.SampledFrom([]string{"0", "-1", "1"}).Draw(t, "ix") + "]"
+					cur = cur.Sub
+				case m.Map:
+					if keys := mapKeys(init); len(keys) > 0 && j == 0 {
+						target += "." + keys[0]
+					} else {
+						target += rapid.SampledFrom([]string{".a", "[\"a\"]", ".k1"}).Draw(t, "key")
+					}
+					cur = cur.Sub
+				case m.Str:
+					target += "[" + rapid.SampledFrom([]string{"0", "-1"}).Draw(t, "six") + "]"
+					cur = nil // nothing below a character
+				default:
+					cur = nil
+				}
+			}
+			rhs := e
+			if cur != nil && cur.K != m.Any && rapid.IntRange(0, 3).Draw(t, "welltyped") > 0 {
+				rhs = m.RenderExpr(g.Natural(cur, 1), lay)
+			} else if cur == nil && rapid.Bool().Draw(t, "strrhs") {
+				rhs = "\"x\""
+			}
+			sb.WriteString(v + " := " + m.RenderExpr(init, lay) + "\n" + target + " = " + rhs + "\nprint " + v + "\n")
 		case "decl-then-assign":
 			sb.WriteString(v + " := " + e + "\n" + v + "b:" + T.String() + "\n" + v + "b = " + v + "\n" + v + " = " + v + "b\n")
 		}
 	}
 	return sb.String(), ops
+}
+
+// anyVariant returns S with the type at nesting level n (counted from the outside) replaced by any.
+func anyVariant(S *m.Type, n int) *m.Type {
+	if n <= 0 || !S.Composite() {
+		return m.TAny
+	}
+	return &m.Type{K: S.K, Sub: anyVariant(S.Sub, n-1)}
+}
+
+func mapKeys(e m.Expr) []string {
+	if ml, ok := e.(*m.MapLit); ok {
+		return ml.Keys
+	}
+	return nil
 }
